@@ -328,9 +328,11 @@ impl Agg {
             "violations": unlisted.len(),
         });
         if !replaying {
-            std::fs::create_dir_all("/verif/evidence").ok();
-            std::fs::write(format!("/verif/evidence/{}.json", prop), serde_json::to_string_pretty(&ev).unwrap())
-                .expect("write evidence");
+            // VH_EVIDENCE_DIR: runs against a deliberately modified /repo (tools/run_seed.sh) keep their
+            // evidence away from the real one
+            let dir = std::env::var("VH_EVIDENCE_DIR").unwrap_or_else(|_| "/verif/evidence".to_string());
+            std::fs::create_dir_all(&dir).ok();
+            std::fs::write(format!("{dir}/{prop}.json"), serde_json::to_string_pretty(&ev).unwrap()).expect("write evidence");
         }
         println!(
             "{} {} seed={} evaluations={} distinct_nontrivial={} violations={} known={} inconclusive={} wall={:.1}s",
